@@ -304,6 +304,10 @@ def run_row(row, obs):
             if str(params.get('peer_nodeid')) == 'dtn://victim/':
                 problems.append(('authn', 'a second SESS_INIT announcing dtn://victim/ was accepted: the session is established with peer_nodeid %r although '
                                  'the certificate names %r' % (params.get('peer_nodeid'), PEER_NODE), {}))
+    # what the endpoint reported about the session (authenticated identifiers included) must fit the declared D-Bus types
+    for viol in sim.hist.sig_violations:
+        problems.append(('type', '%s %s.%s%s does not marshal as %r: %s %s' % (viol.kind, viol.iface, viol.member, viol.args_repr[:80], viol.signature,
+                                                                            viol.exc_type, viol.msg[:70]), {}))
     return problems, want
 
 
